@@ -156,6 +156,7 @@ def main(argv=None):
 
     from .sym import Stats
     tot = Stats()
+    twin_tot = Stats()
     findings, twin_findings, samples, errors = [], {}, [], []
     nontrivial = 0
     twins_run = 0
@@ -166,7 +167,10 @@ def main(argv=None):
             continue
         st = Stats()
         st.__dict__.update(r['stats'])
-        tot.add(st)
+        if r['twin']:
+            twin_tot.add(st)
+        else:
+            tot.add(st)
         per_case.append(dict(case=r['case'], paths=st.paths,
                              obligations=st.obligations, unsat=st.unsat,
                              sat=st.sat, unknown=st.unknown,
@@ -286,6 +290,9 @@ def main(argv=None):
             per_case=per_case[:400],
             twins_run=twins_run,
             twins_detected=sum(1 for n in twin_findings.values() if n),
+            twin_paths=twin_tot.paths,
+            twin_obligations=twin_tot.obligations,
+            twin_refuted_obligations=twin_tot.sat,
             functions_encoded=[dict(name=q, sha1=src_hash(q))
                                for q in meta.get('functions', [])],
             bounds=meta.get('bounds', ''),
@@ -306,6 +313,7 @@ def main(argv=None):
         json.dump(jsonable(ev), fh, indent=1)
     for ln in lines:
         print(ln)
+    tot_paths_all = tot.paths + twin_tot.paths
     print(f'{pid} tier={tier} cases={len(cases)} paths={tot.paths} '
           f'obligations={tot.obligations} unsat={tot.unsat} sat={tot.sat} '
           f'unknown={tot.unknown} twins={twins_run} capped={tot.capped} '
